@@ -2,7 +2,7 @@
 """Rewrite DESIGN.md section 13 (between the markers) from seeded/*/meta.json."""
 import glob, json, os, re
 rows = []
-for f in sorted(glob.glob('/verif/seeded/*/meta.json'), key=lambda p: (p.split('/')[-2].split('-')[0], ('R2' in p) + 2 * ('R3' in p) + 3 * ('R4' in p) + 4 * ('R5' in p), int(p.split('/')[-2].split('-')[-1]))):
+for f in sorted(glob.glob('/verif/seeded/*/meta.json'), key=lambda p: (p.split('/')[-2].split('-')[0], ('R2' in p) + 2 * ('R3' in p) + 3 * ('R4' in p) + 4 * ('R5' in p) + 5 * ('R6' in p), int(p.split('/')[-2].split('-')[-1]))):
     m = json.load(open(f)); ident = f.split('/')[-2]
     det = m.get('detection')
     if isinstance(det, str):
